@@ -18,7 +18,7 @@ demo=none; demo_with=-; demo_without=-
 if [ -f "$src/demo.sh" ]; then
     demo=demo.sh
     # the seeding agents hard-coded their own worktree path; run a copy pointed at this worktree
-    sed -e "s|/tmp/seed_$pid|$W|g" -e "s|/tmp/seedB_$pid|$W|g" -e "s|/tmp/seedC_$pid|$W|g" -e "s|/tmp/seedD_$pid|$W|g" -e "s|/tmp/seedE_$pid|$W|g" -e "s|/tmp/seedF_$pid|$W|g" -e "s|/tmp/seedG_$pid|$W|g" "$src/demo.sh" > "$src/.confirm_demo.sh"
+    sed -e "s|/tmp/seed_$pid|$W|g" -e "s|/tmp/seedB_$pid|$W|g" -e "s|/tmp/seedC_$pid|$W|g" -e "s|/tmp/seedD_$pid|$W|g" -e "s|/tmp/seedE_$pid|$W|g" -e "s|/tmp/seedF_$pid|$W|g" -e "s|/tmp/seedG_$pid|$W|g" -e "s|/tmp/seedH_$pid|$W|g" "$src/demo.sh" > "$src/.confirm_demo.sh"
     sh "$src/.confirm_demo.sh" "$W" >"$W.with.out" 2>&1; demo_with=$?
     git checkout -q -- .
     sh "$src/.confirm_demo.sh" "$W" >"$W.without.out" 2>&1; demo_without=$?
